@@ -280,7 +280,10 @@ def wl_nearvalid(ctx, rng, i):
                 v = corrupt.get(oo, s.path)
             except Exception:
                 continue
-            cands = corrupt.kind_specific(ver, s, v, m)
+            try:
+                cands = corrupt.kind_specific(ver, s, v, m)      # written for valid current values; v may sit under an earlier fault
+            except Exception:
+                cands = []
             if cands and rng.random() < 0.7:
                 lab, nv = rng.choice(cands)
             else:
